@@ -81,8 +81,66 @@ STRENGTHENED.update({
  "C17-r4m3": "missed at first (peers handed to the set algebra were always built with the receiver's comparator); one peer in seven now uses the other comparator (documented: the result is the empty set)",
  "C18-r4m3": "missed at first (the change only writes when the element type is an interface or pointer); C18 gained concurrent and purity targets with T = any",
 })
+R5 = "round 5 (adversarial: the sub-agent was given a description of the tester's limits and asked to stay outside them); "
+STRENGTHENED.update({
+ "C01-r5m1": R5 + "missed at first (needs > 8192 live keys, then thousands of removals); C01 gained big-drain targets (4200..9100 live keys, then most removed oldest-first, newest-first or strided)",
+ "C01-r5m2": R5 + "missed at first (natural comparator specialised by a type switch that misses NAMED float types); the default-constructor targets (internal/ordtypes: 13 ordered types incl. named floats with NaN, 64-bit integers at the ends of their ranges) catch it",
+ "C01-r5m3": R5 + "missed at first (comparator results >= 2^31); comparators whose results are multiples of 2^32, MinInt/MaxInt, or (a-b)<<31 joined the family",
+ "C02-r5m1": R5 + "missed at first (subtraction-based natural comparator wrong for uint64 >= 2^63 / distant int64); caught by the default-constructor targets",
+ "C02-r5m2": R5 + "missed at first (comparator results >= 2^32); caught by the new huge-result comparators",
+ "C02-r5m3": R5 + "missed at first by C02 (needs one Add of >= 1024 values into an empty TreeSet with a many-to-one comparator); caught by C04's ladder argument counts (513, 1025, 2049 values in one call)",
+ "C03-r5m1": R5 + "missed at first (only element types wider than 16 bytes take the new path); the type-isomorphism target gained a third instantiation, an 80-byte struct",
+ "C04-r5m1": R5 + "missed at first (needs >= 1024 arguments in one Remove); C04's large-domain target now makes calls with 513, 1025 and 2049 arguments",
+ "C04-r5m2": R5 + "missed at first (named float type); caught by the default-constructor targets",
+ "C05-r5m1": R5 + "missed at first (ring capacity 300); the long target now draws capacities 255..4100 with phases long enough to fill and wrap them",
+ "C05-r5m3": R5 + "missed at first (element types wider than 64 bytes: divide by zero); caught by the 80-byte struct instantiation of the type-isomorphism target",
+ "C06-r5m2": R5 + "missed at first (needs a heap of > 2048 elements and one Push of >= 456); C06 gained a huge target (2100..4200 elements, then one bulk push of 300..1100)",
+ "C06-r5m3": R5 + "missed at first (named float type); caught by the default-constructor targets",
+ "C07-r5m1": R5 + "missed at first (needs a node with >= 129 children: order >= 129 and thousands of keys); C07 gained a wide-order-fill target (orders 129..258, order^2/2.. keys, then a drain)",
+ "C08-r5m2": R5 + "missed at first (needs a B-tree node with > 256 entries); C08 draws orders up to 512 and fills such nodes",
+ "C10-r5m1": R5 + "missed at first by C10 (needs >= 4096 pairs, then a drain); caught by C01's big-drain target on HashBidiMap",
+ "C10-r5m2": R5 + "missed at first (named float type); caught by the default-constructor targets (also hosted by C10)",
+ "C10-r5m3": R5 + "missed at first (comparator results >= 2^31); caught by the new huge-result comparators",
+ "C13-r5m1": R5 + "missed at first (both operands >= 4096 elements); C13 rarely draws operands of 4100..5200 elements",
+ "C13-r5m2": R5 + "missed at first (the product of two comparator results overflows); caught with the (a-b)<<31 comparator",
+ "C13-r5m3": R5 + "missed at first by C13 (named float type); caught by the default-constructor targets of C02/C04",
+ "C14-r5m2": R5 + "missed at first (receivers of >= 1024 entries); C14 rarely draws receivers of 1100..4200 elements (the callback log shows the predicate consulted twice)",
+ "C15-r5m1": R5 + "missed at first by C15 (one Add of >= 2048 values onto a non-empty list, then a removal at the junction); caught by C03's ladder adds with junction operations",
+ "C15-r5m2": R5 + "missed at first by C15 (ring capacity > 1024); caught by C05's large rings",
+ "C16-r5m1": R5 + "missed at first (one Add of >= 4096 values on an empty list); C16's big targets rarely pass 513..4097 values in one call and to the constructor",
+ "C16-r5m2": R5 + "missed at first (ring capacity >= 2048); C16's big ring capacities now include 300 and 2048",
+ "C17-r5m2": R5 + "missed at first (a typed nil pointer with a String method among the elements); it joined the any domain",
+ "C17-r5m3": R5 + "missed at first (ring capacity > 1024 and more than 1024 enqueues after a dequeue); the reflective driver rarely draws large rings and repeat counts from a ladder",
+})
+NOT_CAUGHT_R5 = "round 5 (adversarial): not caught at the quick tier; it needs "
+STRENGTHENED.update({
+ "C03-r5m2": NOT_CAUGHT_R5 + "one Add of more than 65536 values (the thorough tier's ladder in C17 reaches 65537 and 262145, C03's does not)",
+ "C04-r5m3": NOT_CAUGHT_R5 + "~12300 descending inserts into one red-black tree",
+ "C05-r5m2": NOT_CAUGHT_R5 + "2^32 enqueues on one instance",
+ "C06-r5m1": NOT_CAUGHT_R5 + "a heap of >= 12288 elements with ties, whose Values() costs seconds per call",
+ "C07-r5m2": NOT_CAUGHT_R5 + "a loaded document of exactly 4096, 8192, ... members",
+ "C07-r5m3": NOT_CAUGHT_R5 + "65536 removals on one tree",
+ "C08-r5m1": NOT_CAUGHT_R5 + "a LinkedHashMap of > 4096 entries cleared under a long-lived iterator",
+ "C08-r5m3": NOT_CAUGHT_R5 + "a heap of >= 8191 elements read through a long-lived iterator",
+ "C09-r5m1": NOT_CAUGHT_R5 + ">= 512 arguments in one LinkedHashSet.Remove AND a long-lived iterator rewound afterwards",
+ "C09-r5m2": NOT_CAUGHT_R5 + "a key type with a normalising UnmarshalText",
+ "C09-r5m3": NOT_CAUGHT_R5 + ">= 4096 entries, an odd count, and the removal of the exact middle key",
+ "C11-r5m1": NOT_CAUGHT_R5 + "a defined key type with a String method",
+ "C11-r5m2": NOT_CAUGHT_R5 + "a DoublyLinkedList whose size is an exact multiple of 4096 at a serialisation point",
+ "C11-r5m3": NOT_CAUGHT_R5 + "uint64 keys >= 2^63 in a LinkedHashMap document",
+ "C12-r5m1": NOT_CAUGHT_R5 + "a key type with a normalising UnmarshalText",
+ "C12-r5m2": NOT_CAUGHT_R5 + "a document of >= 64 KiB with struct elements that omit fields",
+ "C12-r5m3": NOT_CAUGHT_R5 + "two goroutines LOADING two different maps at the same time (package-level buffer; the checks run concurrent readers only — C18's claim — and loads sequentially)",
+ "C14-r5m1": NOT_CAUGHT_R5 + "131072 descending inserts into a TreeMap",
+ "C14-r5m3": NOT_CAUGHT_R5 + "an ArrayList of more than 65536 elements",
+ "C15-r5m3": NOT_CAUGHT_R5 + "more than 100 goroutines inside String() at the same moment",
+ "C16-r5m3": NOT_CAUGHT_R5 + "GetSortedValues over >= 131072 values",
+ "C17-r5m1": NOT_CAUGHT_R5 + "one call with >= 262144 values on an empty ArrayList (the thorough tier's ladder in C17 includes 262145)",
+ "C18-r5m1": NOT_CAUGHT_R5 + "a B-tree of height >= 17 (131071 keys)",
+ "C18-r5m3": NOT_CAUGHT_R5 + "a zero-value hashmap.Map that was not made by its constructor (outside C17/C18's 'containers made by their constructors')",
+})
 # seeds whose defect belongs to another property's clause: checks tried when the own check stays silent
-CROSS = {"C03-r3m3": ["C16"], "C03-r4m2": ["C16"], "C02-r4m2": ["C14"]}
+CROSS = {"C01-r5m2": ["C02"], "C02-r5m3": ["C04"], "C10-r5m1": ["C01"], "C13-r5m3": ["C02"], "C15-r5m1": ["C03"], "C15-r5m2": ["C05"], "C03-r3m3": ["C16"], "C03-r4m2": ["C16"], "C02-r4m2": ["C14"]}
 
 from concurrent.futures import ThreadPoolExecutor
 args = sys.argv[1:]
